@@ -15,9 +15,12 @@
 //   - after a change of the window size the window that was open at that moment may
 //     run to its end: requests are judged only when their whole grid cell starts at
 //     or after the end of the last old-size window ("settled");
-//   - requests handled while spill-over is ENABLED for them are not judged (the statement
-//     does not say how much unused quota is carried over), only carried through the model
-//     correspondence; requests handled with spill-over DISABLED are held to the nominal share
+//   - requests handled while spill-over is ENABLED for them are held to the budget including
+//     the carried-over amount, ceil((allowed + carried over) * pct/100) with the percentage in
+//     force when the request is handled -- one ceiling of the whole budget, never a sum of
+//     ceilings -- where that amount is determined: see spillTrack (an interval where
+//     reasonable implementations may differ, nothing once the history leaves the plain
+//     case); requests handled with spill-over DISABLED are held to the nominal share
 //     ceil(allowed*pct/100) -- also when spill-over was enabled for the group earlier.  A
 //     failure of such a request is classified "stale-spillover:TryToIncrement" (known finding
 //     F-C09c: the amount accumulated while spill-over was on stays in the limit) exactly when
@@ -32,6 +35,7 @@ import (
 	"fmt"
 	"math/big"
 	"strings"
+	"time"
 
 	c "verifharness/common"
 )
@@ -68,6 +72,11 @@ type rec struct {
 	judge  bool  // false: the text says nothing definite about this call
 	spill  bool  // spill-over enabled for this call
 	peek   bool  // a Counters() call: touches every group, carries no verdict
+	// for calls handled with spill-over enabled: the inputs of the exact bound
+	// ceil((allowed + carried over) * pct/100)
+	allowed    int64
+	e4lo, e4hi int64 // percentage (x 10^4) in force for this call (lo < hi: value listed twice)
+	renew      int   // spill-over renew day
 }
 
 type passRec struct {
@@ -86,6 +95,114 @@ type groupState struct {
 	dead     bool // a non-positive window size / an unjudgeable ratio was used for this group
 	spilled  bool // some earlier request of this group had spill-over enabled
 	passes   []passRec
+	plain    bool // some earlier request of this group was handled with spill-over disabled
+	sp       spillTrack
+}
+
+// The carried-over budget of a group whose requests all had spill-over enabled, as far
+// as the property's vocabulary fixes it: at every change of window the unused part of the
+// budget (allowed - passed in the window that ended) is added.  Where a reasonable
+// implementation may differ the amount is an interval [lo, hi]:
+//   - allowed count changed between the window that ended and the request that opens the
+//     next one: either count;
+//   - grid windows without any request of the group in between: each adds between nothing
+//     (this code: only a window that is closed by an event adds its rest) and a whole
+//     allowed count.
+// Nothing is tracked (dead) once the group saw a request with spill-over disabled, another
+// window size, a request exactly on a grid instant (closure of the edges is open), a clock
+// reading that went back, two spellings of the header value, or an instant within a day
+// of the configured renew day (time zone of Day() is the process's).
+type spillTrack struct {
+	started bool
+	dead    bool
+	w       int64
+	win     int64 // floor(now / w) of the window being counted
+	passed  int64 // requests that proceeded in it
+	allowed int64 // allowed count of the last request seen
+	lo, hi  int64 // carried-over budget
+	fine    string
+}
+
+// how many requests were judged with spill-over enabled / with a determined non-zero
+// carried-over amount (reported in the distribution: the monitor is not vacuous there)
+var spillJudged, spillJudgedCarry int
+
+func min64(a, b int64) int64 {
+	if a < b {
+		return a
+	}
+	return b
+}
+
+func max64(a, b int64) int64 {
+	if a > b {
+		return a
+	}
+	return b
+}
+
+func nearRenewDay(now int64, renew int) bool {
+	if renew < 1 || renew > 31 {
+		return false
+	}
+	for d := int64(-1); d <= 1; d++ {
+		if time.Unix(0, now+d*86400*int64(time.Second)).UTC().Day() == renew {
+			return true
+		}
+	}
+	return false
+}
+
+// one request handled with spill-over enabled; returns the issue texts ("" = none)
+func (g *groupState) spillStep(r rec) (over, unjust string) {
+	t := &g.sp
+	if t.dead {
+		return
+	}
+	if g.dead || g.plain || r.now <= 0 || r.now%r.w == 0 || nearRenewDay(r.now, r.renew) ||
+		(t.started && (t.w != r.w || t.fine != r.fine)) {
+		t.dead = true
+		return
+	}
+	k := floorDiv(r.now, r.w)
+	if !t.started {
+		*t = spillTrack{started: true, w: r.w, win: k, allowed: r.allowed, fine: r.fine}
+	} else if k < t.win {
+		t.dead = true
+		return
+	} else if k > t.win {
+		t.lo += min64(t.allowed, r.allowed) - t.passed
+		t.hi += max64(t.allowed, r.allowed) - t.passed
+		if idle := k - t.win - 1; idle > 0 {
+			t.lo += idle * min64(0, min64(t.allowed, r.allowed))
+			t.hi += idle * max64(0, max64(t.allowed, r.allowed))
+		}
+		t.win, t.passed = k, 0
+	}
+	t.allowed = r.allowed
+	spillJudged++
+	if t.lo == t.hi && t.lo != 0 {
+		spillJudgedCarry++
+	}
+	limHi := exactShare(r.allowed+t.hi, r.e4hi)
+	limLo := exactShare(r.allowed+t.lo, r.e4lo)
+	carry := fmt.Sprintf("%d", t.lo)
+	if t.lo != t.hi {
+		carry = fmt.Sprintf("%d..%d", t.lo, t.hi)
+	}
+	if r.pass {
+		if t.passed >= limHi {
+			over = fmt.Sprintf(
+				"call #%d of %s at %d ns proceeded as number %d of its window (%d,%d): allowed %d + carried over %d at %s%% gives at most %d",
+				r.idx, r.fine, r.now, t.passed+1, k*r.w, (k+1)*r.w, r.allowed, t.hi, pctString(r.e4hi), limHi)
+		}
+		t.passed++
+	} else if t.passed < limLo {
+		unjust = fmt.Sprintf(
+			"call #%d of %s at %d ns rejected with %d used in its window (%d,%d): allowed %d + carried over %s at %s%% gives a share of %d",
+			r.idx, r.fine, r.now, t.passed, k*r.w, (k+1)*r.w, r.allowed, carry, pctString(r.e4lo), limLo)
+	}
+	return
 }
 
 type verdictIssue struct {
@@ -106,7 +223,9 @@ func (g *groupState) observeWindow(now, w int64) {
 
 // replays the calls and returns over-admissions under right-closed windows, under
 // left-closed windows, and unjustified rejections
-func judge(recs []rec) (overR, overL, unjust []verdictIssue) {
+// plus, for requests handled with spill-over enabled (see spillTrack), over-admissions
+// and unjustified rejections against ceil((allowed + carried over) * pct/100)
+func judgeAll(recs []rec) (overR, overL, unjust, overS, unjustS []verdictIssue) {
 	gs := map[string]*groupState{}
 	for _, r := range recs {
 		if r.peek {
@@ -133,8 +252,14 @@ func judge(recs []rec) (overR, overL, unjust []verdictIssue) {
 			continue
 		}
 		if r.spill {
-			// nothing is demanded while spill-over is enabled; remembered for the classifier
+			// judged against the budget including what was carried over, where that amount
+			// is determined (spillStep); remembered for the stale-spill-over classifier
 			g.spilled = true
+			if ov, un := g.spillStep(r); ov != "" {
+				overS = append(overS, verdictIssue{r.idx, ov, false})
+			} else if un != "" {
+				unjustS = append(unjustS, verdictIssue{r.idx, un, false})
+			}
 			if r.pass {
 				g.passes = append(g.passes, passRec{r.now, r.fine})
 			}
@@ -142,6 +267,7 @@ func judge(recs []rec) (overR, overL, unjust []verdictIssue) {
 			continue
 		}
 		g.observeWindow(r.now, r.w)
+		g.plain = true
 
 		fl := floorDiv(r.now, r.w) * r.w
 		lbL := fl // left-closed window [fl, fl+w)
@@ -206,7 +332,23 @@ func splitStale(is []verdictIssue) (plain, stale []verdictIssue) {
 
 func verdictHits(recs []rec, kase any, site string) []c.Hit {
 	var hits []c.Hit
-	allR, allL, allU := judge(recs)
+	allR, allL, allU, overS, unjustS := judgeAll(recs)
+	if len(overS) > 0 {
+		hits = append(hits, c.Hit{
+			Signature: "over-admission:" + site,
+			Demanded:  "with spill-over enabled at most ceil((allowed + carried-over budget) * pct/100) requests of a (remedy, group) proceed per grid window, the percentage being the one in force when the request is handled",
+			Observed:  overS[0].text,
+			Case:      kase,
+		})
+	}
+	if len(unjustS) > 0 {
+		hits = append(hits, c.Hit{
+			Signature: "unjustified-rejection:" + site,
+			Demanded:  "handled one at a time, a request is rejected only if its group's share ceil((allowed + carried-over budget) * pct/100) of the current window is used up",
+			Observed:  unjustS[0].text,
+			Case:      kase,
+		})
+	}
 	overR, staleR := splitStale(allR)
 	overL, staleL := splitStale(allL)
 	unjust, staleU := splitStale(allU)
@@ -225,7 +367,7 @@ func verdictHits(recs []rec, kase any, site string) []c.Hit {
 			Case:      kase,
 		})
 	}
-	if len(overR) > 0 && len(overL) > 0 {
+	if len(overR) > 0 && len(overL) > 0 && len(overS) == 0 {
 		hits = append(hits, c.Hit{
 			Signature: "over-admission:" + site,
 			Demanded:  "at most ceil(allowed*pct/100) requests of a (remedy, group) proceed per grid window (either closure)",
@@ -233,7 +375,7 @@ func verdictHits(recs []rec, kase any, site string) []c.Hit {
 			Case:      kase,
 		})
 	}
-	if len(unjust) > 0 {
+	if len(unjust) > 0 && len(unjustS) == 0 {
 		hits = append(hits, c.Hit{
 			Signature: "unjustified-rejection:" + site,
 			Demanded:  "handled one at a time, a request is rejected only if its group's share of the current window is used up",
@@ -312,7 +454,8 @@ func monitorHist(k *HistCase) []c.Hit {
 		}
 		id := fmt.Sprintf("%q/%v/%q", key.Limiter, key.Grouped, key.Group)
 		r := rec{idx: i, fine: id, coarse: id, now: op.Now, w: p.W, pass: obs == 1,
-			judge: p.PctE4 >= 0, spill: p.Spill}
+			judge: p.PctE4 >= 0, spill: p.Spill,
+			allowed: p.Allowed, e4lo: p.PctE4, e4hi: p.PctE4, renew: p.Renew}
 		if r.judge {
 			r.lo = exactShare(p.Allowed, p.PctE4)
 			r.hi = r.lo
@@ -365,7 +508,8 @@ func monitorPluginSite(k *PluginCase, site string, kase any) []c.Hit {
 				fmt.Sprintf("request #%d rejected with %d", i, obs))
 			continue
 		}
-		r := rec{idx: i, now: rq.Now, w: int64(rm.WindowS) * sec, pass: obs == 0, judge: true, spill: rm.Spill}
+		r := rec{idx: i, now: rq.Now, w: int64(rm.WindowS) * sec, pass: obs == 0, judge: true, spill: rm.Spill,
+			allowed: rm.Allowed, e4lo: 1000000, e4hi: 1000000, renew: rm.Renew}
 		if rm.Gqa == nil {
 			r.fine = fmt.Sprintf("%q/ungrouped", rm.Name)
 			r.coarse = r.fine
@@ -395,6 +539,12 @@ func monitorPluginSite(k *PluginCase, site string, kase any) []c.Hit {
 				if first || s > r.hi {
 					r.hi = s
 				}
+				if first || a.PctE4 < r.e4lo {
+					r.e4lo = a.PctE4
+				}
+				if first || a.PctE4 > r.e4hi {
+					r.e4hi = a.PctE4
+				}
 				first = false
 			}
 		}
@@ -415,6 +565,7 @@ func monitorPluginSite(k *PluginCase, site string, kase any) []c.Hit {
 			case "use_default_allocation":
 				r.lo = exactShare(rm.Allowed, g.DefPctE4)
 				r.hi = r.lo
+				r.e4lo, r.e4hi = g.DefPctE4, g.DefPctE4
 			default:
 				continue
 			}
